@@ -5,12 +5,12 @@ import vlib
 PROPS = "MutableAccessClears CopyKeepsPair EvaluateExact RegisteredApplied CountOnlyByEvaluate BestRules NoDuplicateOnReinsert"
 
 
-def cfg_mc(sols, f, k, maxpop, export, regkinds=(), both=False):
+def cfg_mc(sols, f, k, maxpop, export, regkinds=(), both=False, user_ops=True):
     """export: print every transition; both: check the properties in the same (single-worker) run."""
     s = ("SPECIFICATION MSpec\nCONSTANTS\n  Sols = {%s}\n  F <- %s\n  K = %d\n  MaxPop = %d\n  RegKinds = {%s}\nVIEW McView\n"
          % (", ".join(map(str, range(1, sols + 1))), f, k, maxpop, ", ".join(map(str, regkinds))))
     if export:
-        s += "ACTION_CONSTRAINT PrintEdge\n"
+        s += "ACTION_CONSTRAINT %s\n" % ("PrintEdge" if user_ops else "PrintEdgeNoUser")
     if both or not export:
         s += "INVARIANT MTypeOK Fresh ArchiveHoldsKBest\nPROPERTY %s\n" % PROPS
     return s + "CHECK_DEADLOCK FALSE\n"
@@ -36,9 +36,19 @@ def unit(ctx, focus, registrations=False):
     q = ctx.quick
     ctx.tlc_mc("MC_Memory", cfg_mc(3, "FQ", 2, 2, False) if q else cfg_mc(4, "FT", 2, 3, False), "mc-memory",
                workers=4 if q else 10, timeout=3000)
-    ex = ctx.tlc_mc("MC_Memory", cfg_mc(2, "FQ", 1, 2, True) if q else cfg_mc(3, "FQ", 2, 2, True), "export-memory",
+    # (thorough: the large export leaves the user-operator calls out -- they double it -- and the quick-sized export,
+    #  which has them, is toured as well)
+    ex = ctx.tlc_mc("MC_Memory", cfg_mc(2, "FQ", 1, 2, True) if q else cfg_mc(3, "FQ", 2, 2, True, user_ops=False), "export-memory",
                     workers=1, timeout=3000)
     scen, edges = vlib.export_scenarios(ctx, ex["out"], "tour-memory")
+    if not q:
+        exs = ctx.tlc_mc("MC_Memory", cfg_mc(2, "FQ", 1, 2, True), "export-memory-small", workers=1, timeout=3000)
+        scens, edges_s = vlib.export_scenarios(ctx, exs["out"], "tour-memory-small")
+        trs = os.path.join(ctx.work, "tour-memory-small.trace.ndjson")
+        ctx.harness("memory", "replay", **{"in": scens, "out": trs, "k": 1, "table": "FQ"})
+        ctx.validate("Trace_Memory_T", cfg_trace(3, "FQ", 1), trs, "tour-memory-small", DESCRIBE,
+                     {"driver": "memory", "k": 1, "table": "FQ"}, timeout=3000)
+        edges = edges + edges_s
     tr = os.path.join(ctx.work, "tour-memory.trace.ndjson")
     kk = 1 if q else 2
     ctx.harness("memory", "replay", **{"in": scen, "out": tr, "k": kk, "table": "FQ"})
